@@ -65,6 +65,23 @@ func addSubstProcs(r rng, p *sdl.Program) {
 
 // addLifeStuff adds observing processors of all order classes, runners and lazy mixes.
 func addLifeStuff(r rng, p *sdl.Program) {
+	defer func() {
+		// zero-size runners (distinct field-less types may share one address)
+		if r.p(0.15) {
+			base := len(p.Instances)
+			for z := 0; z < r.n(2, 3); z++ {
+				t := &sdl.Type{Name: fmt.Sprintf("%sZR%d", p.ID, z), Zero: true, Role: "runner"}
+				p.Types = append(p.Types, t)
+				p.Instances = append(p.Instances, &sdl.Instance{ID: fmt.Sprintf("c%d", base+z), Type: t.Name})
+			}
+		}
+		// a component whose definition is contributed by a definition-registry post-processor
+		if r.p(0.15) {
+			t := &sdl.Type{Name: fmt.Sprintf("%sTC", p.ID), Init: true, APS: r.p(0.3)}
+			p.Types = append(p.Types, t)
+			p.Instances = append(p.Instances, &sdl.Instance{ID: fmt.Sprintf("c%d", len(p.Instances)), Type: t.Name, Contributed: true})
+		}
+	}()
 	// one plain observing processor is always present
 	p.Procs = append(p.Procs, &sdl.Proc{ID: "pp0", Class: "plain"})
 	n := r.n(0, 3)
@@ -122,6 +139,15 @@ func genClose(r rng, seed uint64, id string) *sdl.Program {
 			}
 			ni++
 			p.Instances = append(p.Instances, inst)
+		}
+	}
+	// zero-size closers (distinct field-less types may share one address)
+	if r.p(0.2) {
+		for z := 0; z < r.n(2, 3); z++ {
+			t := &sdl.Type{Name: fmt.Sprintf("%sZC%d", id, z), Zero: true, Role: "closer"}
+			p.Types = append(p.Types, t)
+			p.Instances = append(p.Instances, &sdl.Instance{ID: fmt.Sprintf("c%d", ni), Type: t.Name})
+			ni++
 		}
 	}
 	// a few ordinary components
@@ -229,6 +255,17 @@ func genConfig(r rng, seed uint64, id string, merge bool) *sdl.Program {
 			}
 		}
 		p.Sources = append(p.Sources, s)
+	}
+	// one option call with several loaders, and option values reused by an earlier container
+	if merge && len(p.Sources) >= 2 && r.p(0.4) {
+		via := pick(r, []string{"SetConfigLoader", "SetConfigLoader", "AddConfigLoader"})
+		n := r.n(2, len(p.Sources))
+		for i := 0; i < n; i++ {
+			p.Sources[i].Group, p.Sources[i].Via = 1, via
+		}
+	}
+	if merge && r.p(0.35) {
+		p.Warmup = true
 	}
 	// reload: a source added after Run, followed by a second initialisation
 	if merge && r.p(0.3) {
